@@ -313,7 +313,7 @@ static std::string arrayCase(const strs &t) {
     }
     out += " " + r;
   }
-  return out;
+  return out.empty() ? " -" : out;
 }
 
 //---[ ranges ]-----------------------------------------------------------------
@@ -384,7 +384,7 @@ static std::string rangeCase(const strs &t) {
     }
     out += " " + s;
   }
-  return out;
+  return out.empty() ? " -" : out;
 }
 
 //---[ forLoop ]----------------------------------------------------------------
